@@ -797,12 +797,31 @@ class Fn:
             return "_%d%s" % (base, rest)
         if kind == "call":
             c = Call(self, node, pl)
-            if c.name and re.search(r"(Deref|DerefMut)::deref(_mut)?$|::as_ref$|::as_mut$|::borrow(_mut)?$|Pin<.*>::(get_mut|as_mut|get_unchecked_mut|into_inner|new_unchecked|new|get_ref|into_ref)$|pin::Pin::(get_mut|as_mut|get_unchecked_mut|new_unchecked|new|get_ref|into_ref|map_unchecked_mut)$", c.name) and c.args:
+            if c.name and re.search(r"(Deref|DerefMut)>?::deref(_mut)?$|::as_ref$|::as_mut$|::borrow(_mut)?$|Pin<.*>::(get_mut|as_mut|get_unchecked_mut|into_inner|new_unchecked|new|get_ref|into_ref)$|pin::Pin::(get_mut|as_mut|get_unchecked_mut|new_unchecked|new|get_ref|into_ref|map_unchecked_mut)$", c.name) and c.args:
                 inner = self.origin(c.args[0], depth + 1)
                 if inner.startswith("&") and rest.startswith("*"):
                     return inner[1:] + rest[1:]
                 return inner + rest
         return "_%d%s" % (base, rest)
+
+    def producer(self, o, depth=0):
+        """the Call whose result an operand holds (through once-assigned copies / borrows), else None"""
+        p = op_place(o) if isinstance(o, dict) else o
+        if p is None or depth > 10:
+            return None
+        d = self.single_def(p[0])
+        if d is None:
+            return None
+        node, kind, pl = d
+        if kind == "call":
+            return Call(self, node, pl)
+        if kind == "assign":
+            rv = pl["rv"]
+            if rv["r"] == "ref":
+                return self.producer(rv["p"], depth + 1)
+            if rv["r"] in ("use", "cast"):
+                return self.producer(rv["o"], depth + 1)
+        return None
 
     def recv(self, call):
         """origin string of the receiver (first argument) of a call"""
